@@ -24,9 +24,15 @@ func C03(c *ev.Ctx) {
 		e := mustEngine(run.Alpha, kt, hashes[i%len(hashes)])
 		compareWithSpec(c, e, run.Cases, "resolve-differs-from-spec", func(cs *ResCase) bool { return cs.Na >= 2 })
 	}
+	// DIDs whose create takes effect through a partial-failure branch
+	for _, variant := range []string{"MC_C03_failcreate", "MC_C03_invalidcreate"} {
+		r2 := runResolutionTLC(c, "MC_C03", tierCfg(c, variant), 40*time.Minute)
+		e := mustEngine(r2.Alpha, kts[0], hashes[0])
+		compareWithSpec(c, e, r2.Cases, "resolve-differs-from-spec", func(cs *ResCase) bool { return cs.Na >= 2 })
+	}
 	longRandomHistories(c, run.Alpha, mustEngine(run.Alpha, KeyTypeForSeed(c.Seed+1), concr.SHA256))
 	c.Cov.Exhaustive = true
-	c.Cov.Rule = "TLC enumerates every store of <= MaxOps anchored operations over the C03 alphabet (valid, forked, failing/invalid/mismatched delta, out-of-window, replayed, cyclic commitments; all four types) at every assignment of distinct coordinates; each distinct state is one case, replayed through the real OperationProcessor with real keys/JWS and compared field by field with the specification's Resolve. Non-trivial: the specification applies >= 2 operations. In addition (direction B) seeded random histories of 5-14 operations (published and unpublished, up to 30 coordinates) are resolved by the real processor and the recorded (store, view) pairs are validated by TLC against ResolveRef (MC_C03Trace)."
+	c.Cov.Rule = "TLC enumerates every store of <= MaxOps anchored operations over the C03 alphabet (valid, forked, failing/invalid/mismatched delta, out-of-window, replayed, cyclic commitments; all four types) at every assignment of distinct coordinates; each distinct state is one case, replayed through the real OperationProcessor with real keys/JWS and compared field by field with the specification's Resolve; two further configurations do the same for a DID whose create has non-applicable patches / an invalid delta (published and unpublished operations). Non-trivial: the specification applies >= 2 operations. In addition (direction B) seeded random histories of 5-14 operations (published and unpublished, up to 30 coordinates) are resolved by the real processor and the recorded (store, view) pairs are validated by TLC against ResolveRef (MC_C03Trace)."
 	c.Assume = append(c.Assume, "concretiser self-checks passed (every well-formed shape parses in batch mode and reveals the intended key)",
 		"alpha: commitment strings map back to abstract key ids by table lookup; unknown strings map to -1 and never equal an expected value",
 		"TLC explored the configuration completely (exhaustive within the stated bounds)")
